@@ -10,5 +10,6 @@ INVARIANT Consistent
 INVARIANT GramInvariant
 INVARIANT LawC10
 INVARIANT WidenLaw
+INVARIANT NearMaxLaw
 INVARIANT Export
 CHECK_DEADLOCK FALSE
